@@ -60,21 +60,26 @@ def catQType (db : Db) (c : Sym) : Except ErrKind Sym :=
 def scaleByPow (ratio : Rat) (exp : Int) (v : Rat) : Except ErrKind Rat :=
   if ratio = 0 ∧ exp < 0 then .error .other else .ok (v * zpowR ratio exp)
 
-/-- `_ConvertMatchingExp(quantity_type, from_unit, to_unit, exp, value)`: exponent 1 (or the same unit)
-is the plain conversion, otherwise the value is scaled by `(Convert(1.0) - Convert(0.0)) ** exp` -/
-def convertMatchingExp (db : Db) (qt u w : Sym) (exp : Int) (v : Rat) : Except ErrKind Rat :=
-  if exp == 1 || u == w then db.convert qt u w v
+/-- `_ConvertMatchingExp(quantity_type, from_unit, to_unit, exp, value, in_derived)`: the same unit, or
+exponent 1 outside a derived operand, is the plain conversion; otherwise `zero = Convert(0.0)` is computed
+first: exponent 1 without offset (`zero == 0.0`) is again the plain conversion, everything else scales the
+value by `(Convert(1.0) - zero) ** exp` -/
+def convertMatchingExp (db : Db) (qt u w : Sym) (exp : Int) (v : Rat) (inDerived : Bool) : Except ErrKind Rat :=
+  if u == w || (exp == 1 && !inDerived) then db.convert qt u w v
   else
-    match db.convert qt u w 1 with
+    match db.convert qt u w 0 with
     | .error e => .error e
-    | .ok c1 =>
-      match db.convert qt u w 0 with
-      | .error e => .error e
-      | .ok c0 => scaleByPow (c1 - c0) exp v
+    | .ok c0 =>
+      if exp == 1 && c0 == 0 then db.convert qt u w v
+      else
+        match db.convert qt u w 1 with
+        | .error e => .error e
+        | .ok c1 => scaleByPow (c1 - c0) exp v
 
 /-- one operand's pass of the loop in `_MatchQuantities`: the first unit seen for a quantity type is
-kept, every later entry of that type gets that unit and the value is converted accordingly -/
-def matchOne (db : Db) : List (Sym × Sym) → List Entry → Rat →
+kept, every later entry of that type gets that unit and the value is converted accordingly;
+`inDerived` is `len(c) > 1` of the operand's dict (it does not change during the pass) -/
+def matchOne (db : Db) (inDerived : Bool) : List (Sym × Sym) → List Entry → Rat →
     Except ErrKind (List (Sym × Sym) × List Entry × Rat)
   | used, [], v => .ok (used, [], v)
   | used, e :: es, v =>
@@ -83,24 +88,27 @@ def matchOne (db : Db) : List (Sym × Sym) → List Entry → Rat →
     | .ok qt =>
       match lookupU qt used with
       | none =>
-        match matchOne db ((qt, e.unit) :: used) es v with
+        match matchOne db inDerived ((qt, e.unit) :: used) es v with
         | .error err => .error err
         | .ok (u', es', v') => .ok (u', e :: es', v')
       | some w =>
-        match convertMatchingExp db qt e.unit w e.exp v with
+        match convertMatchingExp db qt e.unit w e.exp v inDerived with
         | .error err => .error err
         | .ok v1 =>
-          match matchOne db used es v1 with
+          match matchOne db inDerived used es v1 with
           | .error err => .error err
           | .ok (u', es', v') => .ok (u', { e with unit := w } :: es', v')
+
+/-- `len(c) > 1` -/
+def isDerivedDict (es : List Entry) : Bool := decide (1 < es.length)
 
 /-- `_MatchQuantities`: the left operand first, then the right one, one shared `used` dict -/
 def matchQuantities (db : Db) (e1 e2 : List Entry) (v1 v2 : Rat) :
     Except ErrKind (List Entry × List Entry × Rat × Rat) :=
-  match matchOne db [] e1 v1 with
+  match matchOne db (isDerivedDict e1) [] e1 v1 with
   | .error err => .error err
   | .ok (used, e1', v1') =>
-    match matchOne db used e2 v2 with
+    match matchOne db (isDerivedDict e2) used e2 v2 with
     | .error err => .error err
     | .ok (_, e2', v2') => .ok (e1', e2', v1', v2')
 
